@@ -8,9 +8,10 @@ code WITH fixes/C04-encoded-value-sign.diff), dispatching through the generated 
 AgVerif.Gen.ValueTypes.dispatch.   Spec: AgVerif.Spec.EncodedValue (DEX format document, JLS literals).
 -/
 import AgVerif.Proof.EncodedValue
+import AgVerif.Proof.EncodedValuePrint
 namespace AgVerif.C04
 open AgVerif.EncodedValue AgVerif.Gen.ValueTypes
-open AgVerif.Spec.EncodedValue (le sext SValue Encodes Elem Pools scalar staticInit)
+open AgVerif.Spec.EncodedValue (le sext SValue Encodes Elem Pools scalar staticInit javaLiteralValue assignable JVal)
 
 /-- the generated `VALUE_*` constants are the type codes of the format document -/
 theorem value_constants :
@@ -66,7 +67,56 @@ theorem bind_overlong {α : Type} (vs : List α) (fields : List (Option α)) (h 
   have : ¬ vs.length ≤ fields.length := by omega
   simp [bindStatics, this]
 
+/-! ### the printed field initialiser (get_field_init_literal), read back as Java source
+`javaLiteralValue` is the Java reading of the text (JLS 3.10.1: decimal/hex integer literals with the
+2^31 / 2^63 limits and the unary-minus rule, no leading zeros, `L` suffix; boolean and null literals);
+`assignable` is assignment conversion of the constant to the field's declared type (JLS 5.2). -/
+
+/-- `byte` fields (`hex(v)`): every byte value -/
+theorem print_denotes_byte (vt : Nat) (v : Int) (hlo : -128 ≤ v) (hhi : v < 128) :
+    ((printInit "B" (.int vt v)).bind javaLiteralValue).bind (assignable "B") = some v := by
+  have h := hex32_denotes v (by omega) (by omega)
+  simp [printInit, h, assignable, hlo, hhi]
+
+/-- `short` fields: every 16-bit value -/
+theorem print_denotes_short (vt : Nat) (v : Int) (hlo : -32768 ≤ v) (hhi : v < 32768) :
+    ((printInit "S" (.int vt v)).bind javaLiteralValue).bind (assignable "S") = some v := by
+  have h := dec32_denotes v (by omega) (by omega)
+  simp [printInit, h, assignable, hlo, hhi]
+
+/-- `char` fields (printed as the code unit's number): every 16-bit unsigned value -/
+theorem print_denotes_char (vt : Nat) (v : Int) (hlo : 0 ≤ v) (hhi : v < 65536) :
+    ((printInit "C" (.int vt v)).bind javaLiteralValue).bind (assignable "C") = some v := by
+  have h := dec32_denotes v (by omega) (by omega)
+  simp [printInit, h, assignable, hlo, hhi]
+
+/-- `int` fields: every 32-bit value (MIN is printed as `-2147483648`, legal only with the minus) -/
+theorem print_denotes_int (vt : Nat) (v : Int) (hlo : -2 ^ 31 ≤ v) (hhi : v < 2 ^ 31) :
+    ((printInit "I" (.int vt v)).bind javaLiteralValue).bind (assignable "I") = some v := by
+  have h := dec32_denotes v hlo hhi
+  simp [printInit, h, assignable]
+
+/-- `long` fields (`L` suffix): every 64-bit value -/
+theorem print_denotes_long (vt : Nat) (v : Int) (hlo : -2 ^ 63 ≤ v) (hhi : v < 2 ^ 63) :
+    (printInit "J" (.int vt v)).bind javaLiteralValue = some (.long v) ∧
+    ((printInit "J" (.int vt v)).bind javaLiteralValue).bind (assignable "J") = some v := by
+  have h := dec64_denotes v hlo hhi
+  simp [printInit, h, assignable]
+
+/-- `boolean` fields and null references -/
+theorem print_denotes_boolean (proto : String) (b : Bool) :
+    (printInit proto (.bool b)).bind javaLiteralValue = some (.bool b) := by
+  cases b <;> rfl
+
+theorem print_denotes_null (proto : String) :
+    (printInit proto .null).bind javaLiteralValue = some .null := rfl
+
 /-! Non-vacuity -/
+example : printInit "B" (.int 0 (-128)) = some "-0x80".toList := by decide
+example : printInit "J" (.int 6 (-9223372036854775808)) = some "-9223372036854775808L".toList := by decide
+example : javaLiteralValue "2147483648".toList = none ∧ javaLiteralValue "010".toList = none ∧
+    javaLiteralValue "-2147483648".toList = some (.int (-2147483648)) := by decide
+
 -- INT -1 in one byte, LONG MIN in eight, a nested array [BYTE -128, [BOOLEAN true]], an annotation
 example : Encodes [0x04, 0xff] (.int (-1)) :=
   Encodes.scalar 0x04 0 [0xff] _ (by decide) (by decide) (by decide) rfl
